@@ -7,6 +7,7 @@ import (
 
 	"github.com/internetarchive/Zeno/internal/pkg/log"
 	"github.com/internetarchive/Zeno/internal/pkg/source/lq/sqlc_model"
+	"github.com/internetarchive/Zeno/internal/pkg/verifhook"
 )
 
 // producerBatch represents a batch of URLs to be added to LQ.
@@ -85,6 +86,7 @@ func producerReceiver(ctx context.Context, wg *sync.WaitGroup, batchCh chan *pro
 			logger.Debug("closing")
 			return
 		case item := <-globalLQ.produceCh:
+			verifhook.At("lq.produce.recv", item)
 			URL := sqlc_model.Url{
 				Value: item.GetURL().Raw,
 				Via:   item.GetSeedVia(),
